@@ -160,6 +160,9 @@ CmdChecks(cmd) ==
                    /\ \E i \in DOMAIN cv.opts : \E j \in OkOffs(cv.opts[i]) :
                          cv.opts[i].offs[j].ct = OnDemand /\ LaunchCt(cv.opts[i]) # OnDemand /\ ~(cv.opts[i].offs[j].price < CandSum(cv))
                 THEN <<V("Obs_C06_SpotNodeOdFallback", cmd.method)>> ELSE <<>>)
+            \* ... and a node price in the command that differs from the price table (MODEL-DRIFT diagnosis: the verdicts use the table)
+            \o (IF \E i \in DOMAIN cmd.candidates : cmd.candidates[i].price # cv.cands[i].price
+                THEN <<V("Obs_C06_CandidatePriceDiffers", cmd.method)>> ELSE <<>>)
 
 IsJudged(cmd) == cmd.method \in ConsolidationMethods /\ "sg" \in DOMAIN cmd
 
